@@ -569,6 +569,12 @@ func (s *Subscription) Event(event *rescache.ResourceEvent) {
 }
 
 func (s *Subscription) processEvent(event *rescache.ResourceEvent) {
+	// Discard queued events if an earlier event of the same batch caused
+	// the subscription to be disposed
+	if s.resourceSub == nil {
+		return
+	}
+
 	// Discard events targeting a different internal version
 	if s.version != event.Version {
 		return
